@@ -227,52 +227,60 @@ def whole(pm: ProgramModel, ctx: Ctx, mb: ModelBuilder, entry: Any) -> None:
     from ..roundtrip import features as all_features
     models = tree_models(mb)
     models["rich"] = rich_model(mb)
+    def judge(name: str, m: AObj, it: Interp) -> None:
+            try:
+                sets = it.call(entry, [m])
+            except AbsRaise as exc:
+                sets = ("raise", exc.what)
+            feats = all_features(m)
+            bad = []
+            if not isinstance(sets, list) or not all(isinstance(s, (set, frozenset, list)) for s in sets):
+                bad.append(f"result is {str(sets)[:80]}")
+            else:
+                count = {id(f): 0 for f in feats}
+                for s in sets:
+                    if len(s) == 0:
+                        bad.append("an empty set")
+                    for f in s:
+                        if id(f) in count:
+                            count[id(f)] += 1
+                        else:
+                            bad.append(f"a non-feature {f!r}")
+                wrong = [f._f["name"] for f in feats if count[id(f)] != 1]
+                if wrong:
+                    bad.append(f"features {wrong[:4]} are not in exactly one set")
+                for f in feats:
+                    p = f._f["parent"]
+                    if p is None:
+                        continue
+                    rel = next(r for r in p._f["relations"] if any(c is f for c in r._f["children"]))
+                    d = D(int(rel._f["card_min"]), int(rel._f["card_max"]), len(rel._f["children"]))
+                    same = any(any(x is f for x in s) and any(x is p for x in s) for s in sets)
+                    if kind(d) == "mandatory" and not same:
+                        bad.append(f"mandatory child {f._f['name']} is not with its parent")
+                for s in sets:
+                    members = list(s)
+                    for f in members:
+                        # every member other than the set's top is tied to its parent by a forced relation
+                        p = f._f["parent"]
+                        if p is not None and any(x is p for x in members):
+                            rel = next(r for r in p._f["relations"] if any(c is f for c in r._f["children"]))
+                            d = D(int(rel._f["card_min"]), int(rel._f["card_max"]), len(rel._f["children"]))
+                            if not forced_all(d):
+                                bad.append(f"{f._f['name']} shares a set with its parent through relation {d}, which "
+                                           f"does not force it")
+                    tops = [f for f in members if f._f["parent"] is None or not any(x is f._f["parent"] for x in members)]
+                    if len(tops) > 1:
+                        bad.append(f"set {sorted(x._f['name'] for x in members)} is not connected in the tree")
+            ctx.check(not bad, "C15-WHOLE", f"tree:{name}", loc(entry.unit.path, entry.node),
+                      f"atomic sets of abstract tree '{name}' partition it into forced-connected sets",
+                      bad=f"atomic sets of abstract tree '{name}': " + "; ".join(bad[:3]))
+
+    from .c16 import edit_in_place
     for name, m in models.items():
         it = Interp(pm)
-        try:
-            sets = it.call(entry, [m])
-        except AbsRaise as exc:
-            sets = ("raise", exc.what)
-        feats = all_features(m)
-        bad = []
-        if not isinstance(sets, list) or not all(isinstance(s, (set, frozenset, list)) for s in sets):
-            bad.append(f"result is {str(sets)[:80]}")
-        else:
-            count = {id(f): 0 for f in feats}
-            for s in sets:
-                if len(s) == 0:
-                    bad.append("an empty set")
-                for f in s:
-                    if id(f) in count:
-                        count[id(f)] += 1
-                    else:
-                        bad.append(f"a non-feature {f!r}")
-            wrong = [f._f["name"] for f in feats if count[id(f)] != 1]
-            if wrong:
-                bad.append(f"features {wrong[:4]} are not in exactly one set")
-            for f in feats:
-                p = f._f["parent"]
-                if p is None:
-                    continue
-                rel = next(r for r in p._f["relations"] if any(c is f for c in r._f["children"]))
-                d = D(int(rel._f["card_min"]), int(rel._f["card_max"]), len(rel._f["children"]))
-                same = any(any(x is f for x in s) and any(x is p for x in s) for s in sets)
-                if kind(d) == "mandatory" and not same:
-                    bad.append(f"mandatory child {f._f['name']} is not with its parent")
-            for s in sets:
-                members = list(s)
-                for f in members:
-                    # every member other than the set's top is tied to its parent by a forced relation
-                    p = f._f["parent"]
-                    if p is not None and any(x is p for x in members):
-                        rel = next(r for r in p._f["relations"] if any(c is f for c in r._f["children"]))
-                        d = D(int(rel._f["card_min"]), int(rel._f["card_max"]), len(rel._f["children"]))
-                        if not forced_all(d):
-                            bad.append(f"{f._f['name']} shares a set with its parent through relation {d}, which "
-                                       f"does not force it")
-                tops = [f for f in members if f._f["parent"] is None or not any(x is f._f["parent"] for x in members)]
-                if len(tops) > 1:
-                    bad.append(f"set {sorted(x._f['name'] for x in members)} is not connected in the tree")
-        ctx.check(not bad, "C15-WHOLE", f"tree:{name}", loc(entry.unit.path, entry.node),
-                  f"atomic sets of abstract tree '{name}' partition it into forced-connected sets",
-                  bad=f"atomic sets of abstract tree '{name}': " + "; ".join(bad[:3]))
+        judge(name, m, it)
+        if name in ("bushy", "rich", "two-groups"):
+            # the same model object, edited in place after this first analysis, analysed again in the same process
+            edit_in_place(mb, m)
+            judge(name + ":edited-in-place", m, it)
